@@ -133,7 +133,8 @@ def run_subn(mods, pattern, repl, source, count):
         ins.wrap(core, "is_valid_python", mk_valid)
         ins.wrap(processing, "minimize_whitespace_line_differences", mk_minws)
         try:
-            out, n = pm.subn(pattern, repl, source, count)
+            # count == 0 is the documented default: exercised through the default argument
+            out, n = pm.subn(pattern, repl, source, count) if count != 0 else pm.subn(pattern, repl, source)
         except ValueError as e:
             rec["error"] = f"ValueError: {e}"
             out, n = None, None
@@ -337,7 +338,7 @@ def property_oracle(mods, pattern, repl, source, count, rec=None) -> list[dict]:
     pm = mods["pattern_matching"]
     try:
         with common.quiet():
-            out, n = pm.subn(pattern, repl, source, count)
+            out, n = pm.subn(pattern, repl, source, count) if count != 0 else pm.subn(pattern, repl, source)
     except ValueError as e:
         if str(e).startswith("Unfilled wildcards"):
             return []   # documented error for a replacement that uses an unknown wildcard
@@ -345,7 +346,7 @@ def property_oracle(mods, pattern, repl, source, count, rec=None) -> list[dict]:
     except Exception as e:
         return [{"clause": "no-crash", "detail": f"{type(e).__name__}: {e}"}]
     with common.quiet():
-        if pm.sub(pattern, repl, source, count) != out:
+        if (pm.sub(pattern, repl, source, count) if count != 0 else pm.sub(pattern, repl, source)) != out:
             probs.append({"clause": "sub-is-subn", "detail": "sub() and subn()[0] differ"})
     ms = all_matches(mods, pattern, source)
     ilines = ignore_line_ranges(source)
@@ -511,7 +512,9 @@ def expr_replacements(names):
     b = names[-1]
     res = ["g()", "g({{%s}})" % a, "g({{%s}}, {{%s}})" % (a, a), "{{%s}} * 2" % a, "{{%s}}" % a,
            "h({{%s}}, {{%s}})" % (b, a), "{{%s}} - {{%s}}" % (a, b), "g(\n    {{%s}}\n)" % a,
-           "-{{%s}}" % b, "{{%s}} < {{%s}}" % (a, b), "k({{root}})"]
+           "-{{%s}}" % b, "{{%s}} < {{%s}}" % (a, b), "k({{root}})",
+           # deleting an expression: neither the plain nor the `pass` candidate parses (rolled back)
+           ""]
     return res
 
 
@@ -527,7 +530,9 @@ def stmt_replacements(names):
     b = names[-1]
     return ["x = g({{%s}})" % a, "x = {{%s}}\ny = {{%s}}" % (a, a), "if q:\n    x = {{%s}}" % b, "pass", "",
             "x = {{%s}} * 2" % a, "w = {{%s}}\n\nz = {{%s}}" % (b, a), "    x = h({{%s}})\n    u = 0" % a,
-            "{{%s}}" % a, "while {{%s}}:\n    x = 1\n    break" % a]
+            "{{%s}}" % a, "while {{%s}}:\n    x = 1\n    break" % a,
+            # body not indented in the template: valid only through _do_rewrite's extra-indent retry
+            "if q:\nx = {{%s}}" % a, "for i in q:\nx = {{%s}}\nu = i" % b]
 
 
 FIXED_SOURCES = [
@@ -785,7 +790,8 @@ def model_subn_detail(wd: Path, row: str) -> str:
     p = wd / "replay_subn.v"
     p.write_text(HEADER + f"Definition c : subn_case := {row}.\n"
                  "Eval vm_compute in (subn_case_code c).\nEval vm_compute in (model_items c).\n"
-                 "Eval vm_compute in (model_sched c).\nEval vm_compute in (model_cand c).\n")
+                 "Eval vm_compute in (model_sched c).\nEval vm_compute in (model_cand c).\n"
+                 "Eval vm_compute in (model_cand_d true c).\n")
     rc, out = common.coqc(p)
     return out[-6000:]
 
@@ -1097,6 +1103,171 @@ def failing_input_search(mods, run, seeds_cases, findings, budget=1500):
     return None
 
 
+# ------------------------------------------------------------------------------------------------
+# the command line: `python -m pyrefact.pattern_matching find|replace ...` (pattern_matching.main)
+
+CLI_TREES = [
+    # files of the tree; (relative path -> content)
+    {"a.py": "x = f(1) + f(2)\nz = f(3)  # pyrefact: ignore\n",
+     "b.py": "y = 1\n",
+     "pkg/c.py": "def k(u):\n    if u:\n        x = f(f(u))\n    return f(u) * 2\n",
+     "pkg/sub/d.py": "if q:\n    f(1)\n    g(2)\nh()",
+     "pkg/notes.txt": "w = f(9)\n",
+     "other/e.py": "v = f(7)\n",
+     # \r\n line endings: with a match (the untouched line keeps its \r\n) and without (bytes untouched)
+     "pkg/crlf_match.py": "v = f(1)\r\nw = 2\r\n",
+     "pkg/crlf_nomatch.py": "v = 1\r\nw = 2\r\n"},
+]
+CLI_CALLS = [
+    # pattern, replacement, path arguments (relative to the tree)
+    ("f({{x}})", "g({{x}})", ["a.py"]),
+    ("f({{x}})", "g({{x}}, {{x}})", ["pkg"]),
+    ("f({{x}})", "g({{x}})", ["pkg/notes.txt", "b.py"]),
+    ("f({{x}})", "g({{x}})", ["."]),
+    ("nomatch({{x}})", "g({{x}})", ["."]),
+    ("f({{x}})", "f({{x}})", ["a.py", "pkg"]),
+    (IF_FG, IF_F_G, ["pkg", "a.py"]),
+    ("x = {{v}}", "x = {{v}}\ny = {{v}}", ["pkg/c.py", "pkg/c.py", "other"]),
+]
+
+
+def cli_reachable(root: Path, paths):
+    """The files main() visits: explicit files, and *.py below explicit directories; each once, sorted."""
+    out = set()
+    for p in paths:
+        q = root / p
+        if q.is_file():
+            out.add(q)
+        elif q.is_dir():
+            out |= set(q.rglob("*.py"))
+    return sorted(out)
+
+
+def cli_cases(mods, wd: Path, findings):
+    """Runs the CLI on scratch trees under the work directory.  Returns (number of runs, problems);
+    every problem carries the concrete files / arguments."""
+    import os
+    import subprocess
+    import sys
+    pm = mods["pattern_matching"]
+    problems, n = [], 0
+
+    def build(i):
+        root = wd / f"cli-{i}"
+        if root.exists():
+            import shutil
+            shutil.rmtree(root)
+        for rel, content in CLI_TREES[0].items():
+            f = root / rel
+            f.parent.mkdir(parents=True, exist_ok=True)
+            f.write_bytes(content.encode())
+        return root
+
+    def snapshot(root):
+        return {str(f.relative_to(root)): f.read_bytes() for f in sorted(root.rglob("*")) if f.is_file()}
+
+    def expected_after(root, before, pattern, repl, paths):
+        exp = dict(before)
+        for f in cli_reachable(root, paths):
+            rel = str(f.relative_to(root))
+            with common.quiet():
+                exp[rel] = pm.sub(pattern, repl, before[rel].decode()).encode()
+        return exp
+
+    def run_main(argv, entry="main"):
+        out = io.StringIO()
+        import contextlib
+        with contextlib.redirect_stdout(out), contextlib.redirect_stderr(io.StringIO()):
+            try:
+                if entry == "main":
+                    rc = pm.main(argv)
+                else:
+                    saved = sys.argv
+                    sys.argv = ["prog"] + list(argv)
+                    try:
+                        rc = getattr(pm, entry)()
+                    finally:
+                        sys.argv = saved
+            except SystemExit as e:
+                rc = f"SystemExit({e.code})"
+            except Exception as e:
+                rc = f"{type(e).__name__}: {e}"
+        return rc, out.getvalue()
+
+    for i, (pattern, repl, paths) in enumerate(CLI_CALLS):
+        # ---- replace
+        root = build(i)
+        before = snapshot(root)
+        exp = expected_after(root, before, pattern, repl, paths)
+        entry = "pyreplace_main" if i % 3 == 2 else "main"
+        argv = ([] if entry == "pyreplace_main" else ["replace"]) + [pattern, repl] + [str(root / p) for p in paths]
+        rc, out = run_main(argv, entry)
+        after = snapshot(root)
+        n += 1
+        case = {"command": "replace", "entry": entry, "pattern": pattern, "repl": repl, "paths": paths,
+                "files": {k: v.decode() for k, v in before.items()}}
+        if rc != 0:
+            problems.append(dict(case, problem=f"exit status {rc!r}"))
+        elif after != exp:
+            bad = sorted(k for k in set(after) | set(exp) if after.get(k) != exp.get(k))
+            problems.append(dict(case, problem=f"files after the run differ from sub() of their content / untouched "
+                                 f"bytes: {bad}", got={k: after.get(k, b'').decode() for k in bad},
+                                 expected={k: exp.get(k, b'').decode() for k in bad}))
+        else:
+            want_out = "".join(f"Parsing {f}...\n" for f in cli_reachable(root, paths))
+            if out != want_out:
+                problems.append(dict(case, problem=f"output {out!r} instead of {want_out!r}"))
+        # the property on the bytes: every rewritten file must satisfy the oracle of sub()
+        for f in cli_reachable(root, paths):
+            rel = str(f.relative_to(root))
+            if after.get(rel) != before[rel]:
+                probs, fnd = oracle_on(mods, (pattern, repl, before[rel].decode(), 0), findings)
+                if probs and fnd is None and after.get(rel) == exp.get(rel):
+                    problems.append(dict(case, problem=f"{rel}: {probs}"))
+        # ---- find
+        root = build(i)
+        before = snapshot(root)
+        entry = "pyrefind_main" if i % 3 == 1 else "main"
+        argv = ([] if entry == "pyrefind_main" else ["find"]) + [pattern] + [str(root / p) for p in paths]
+        rc, out = run_main(argv, entry)
+        n += 1
+        want = []
+        for f in cli_reachable(root, paths):
+            src = before[str(f.relative_to(root))].decode()
+            for (rng, _, _) in all_matches(mods, pattern, src):
+                line_start = src.rfind("\n", 0, rng[0]) + 1
+                want.append(f"{f}:{src.count(chr(10), 0, rng[0]) + 1}:{rng[0] - line_start}: "
+                            f"{src[rng[0]:rng[1]].splitlines()[0]}\n")
+        case = {"command": "find", "entry": entry, "pattern": pattern, "paths": paths,
+                "files": {k: v.decode() for k, v in before.items()}}
+        if rc != 0:
+            problems.append(dict(case, problem=f"exit status {rc!r}"))
+        elif out != "".join(want):
+            problems.append(dict(case, problem=f"output {out!r} instead of {''.join(want)!r}"))
+        elif snapshot(root) != before:
+            problems.append(dict(case, problem="find modified a file"))
+    # ---- the real command, once: python -m pyrefact.pattern_matching replace ...
+    root = build("m")
+    before = snapshot(root)
+    pattern, repl, paths = CLI_CALLS[1]
+    exp = expected_after(root, before, pattern, repl, paths)
+    env = dict(os.environ, PYTHONPATH=str(common.REPO), PYTHONHASHSEED="0", PYTHONDONTWRITEBYTECODE="1")
+    r = subprocess.run([sys.executable, "-m", "pyrefact.pattern_matching", "replace", pattern, repl] +
+                       [str(root / p) for p in paths], capture_output=True, text=True, env=env, timeout=300,
+                       cwd=str(wd))
+    n += 1
+    after = snapshot(root)
+    case = {"command": "python -m pyrefact.pattern_matching replace", "pattern": pattern, "repl": repl, "paths": paths,
+            "files": {k: v.decode() for k, v in before.items()}}
+    if r.returncode != 0:
+        problems.append(dict(case, problem=f"exit status {r.returncode}: {r.stderr[-400:]}"))
+    elif after != exp:
+        bad = sorted(k for k in set(after) | set(exp) if after.get(k) != exp.get(k))
+        problems.append(dict(case, problem=f"files after the run differ: {bad}",
+                             got={k: after.get(k, b'').decode() for k in bad}))
+    return n, problems
+
+
 def check(run: common.Run):
     wd = common.workdir(PID)
     ps = common.proof_step(run, PID, wd)
@@ -1246,7 +1417,18 @@ def check(run: common.Run):
         else:
             common.log(f"note: known finding {f.id} no longer reproduces")
 
+    # ---------------- the command line ----------------
+    try:
+        n_cli, cli_problems = cli_cases(mods, wd, findings)
+    except Exception as e:
+        n_cli, cli_problems = 0, [{"command": "cli", "problem": f"harness could not run the CLI: {type(e).__name__}: {e}"}]
+
     # ---------------- verdicts ----------------
+    for pr in cli_problems[:4]:
+        run.violation({"kind": "cli", "case": pr,
+                       "explanation": "`python -m pyrefact.pattern_matching` (pattern_matching.main): the files after "
+                                      "`replace` are not sub() of their content with every other byte untouched, or "
+                                      "`find` does not list the matches"}, True)
     for (c, probs) in sweep_fail[:5]:
         run.violation({"kind": "property-oracle", "case": list(c), "problems": probs,
                        "explanation": "sub()/subn() violates C14 on this input and no listed finding explains it"},
@@ -1285,7 +1467,8 @@ def check(run: common.Run):
                                     "n": rec["n"], "error": rec["error"]},
                            "model": detail[-3000:],
                            "explanation": "model and implementation disagree (code: 1 ignore lines, 2 yielded "
-                                          "items, 3 schedule, 4 text, 5 count); the property oracle found no "
+                                          "items, 3 schedule, 4 text, 5 count, 6 text depends on a validity answer "
+                                          "the implementation never produced); the property oracle found no "
                                           "failing input"}, False)
         for i in edis[:4]:
             run.violation({"kind": "correspondence", "kernel": "K13 ExprModel (unparse / parse / inst_text)",
@@ -1307,7 +1490,8 @@ def check(run: common.Run):
                        or (d["kind"] == "parse" and d["cpython"] is not None)
                        or (d["kind"] == "inst" and any(" " in b or "(" in b for b in d["bindings"])))
     run.coverage.update(
-        evaluations=len(rows) + len(erows) + len(sweep),
+        evaluations=len(rows) + len(erows) + len(sweep) + n_cli,
+        cli_runs=n_cli,
         distinct_nontrivial=len(distinct) + g_nontrivial,
         rule=("subn correspondence: real pattern_matching.subn (instrumented: yielded items, schedule, text after "
               "the _do_rewrite chain, returned count) vs SubstModel on (pattern, replacement, source, count); the "
@@ -1320,7 +1504,11 @@ def check(run: common.Run):
               "case. Grammar correspondence: ast.unparse on ALL trees of depth <=3 (2 atoms, 2 unary, 5 binary "
               "operators, call); CPython's parser on ALL token strings of length <=4 (<=5 thorough) over 11 tokens "
               "plus seeded longer / mutated ones; core.format_template on ALL templates of depth <=2 over 2 holes x "
-              "bindings of depth <=2; non-trivial = printed with parentheses / parses / non-atomic binding."),
+              "bindings of depth <=2; non-trivial = printed with parentheses / parses / non-atomic binding. CLI: "
+              "pattern_matching.main / pyrefind_main / pyreplace_main in-process and `python -m "
+              "pyrefact.pattern_matching replace` once, on a scratch tree (explicit files, directories, nested "
+              "directories, a non-.py file, duplicates): bytes of every file after the run = sub() of its content for "
+              "the visited files and unchanged otherwise; exit status; printed lines; `find` output."),
         samples=[list(kept[0][0]), list(kept[n_corpus + 7][0]), list(kept[len(kept) // 2][0]), list(kept[-1][0]),
                  edesc[100], edesc[-1]],
         exhaustive=False,
@@ -1383,6 +1571,30 @@ def replay(path: str) -> int:
                      "| CParse ts _ => ts end).\n"
                      "Eval vm_compute in (match c with CParse ts _ => parse ts | _ => None end).\n")
         print(common.coqc(p)[1][-3000:])
+    elif kind == "cli":
+        c = data["case"]
+        root = wd / "cli-replay"
+        for rel, content in c.get("files", {}).items():
+            f = root / rel
+            f.parent.mkdir(parents=True, exist_ok=True)
+            f.write_bytes(content.encode())
+        argv = [c["command"].split()[-1], c["pattern"]] + ([c["repl"]] if "repl" in c else []) + \
+               [str(root / p) for p in c.get("paths", [])]
+        out = io.StringIO()
+        import contextlib
+        with contextlib.redirect_stdout(out):
+            try:
+                rc = mods["pattern_matching"].main(argv)
+            except BaseException as e:
+                rc = f"{type(e).__name__}: {e}"
+        print("argv   :", argv)
+        print("status :", rc)
+        print("stdout :", out.getvalue())
+        for f in sorted(root.rglob("*")):
+            if f.is_file():
+                rel = str(f.relative_to(root))
+                now = f.read_text()
+                print(f"{rel}: {'unchanged' if now == c['files'].get(rel) else repr(now)}")
     elif kind == "proof":
         print(common.check_props(PID, wd))
     return 0
